@@ -21,7 +21,7 @@ import (
 
 func init() {
 	register("C02", propDef{
-		header: "From KV Require Import Corr.PIPE.\nFrom KV Require Labels Res.Replica Res.Image.\nFrom KV Require Gen.LegacyOrder.\n" +
+		header: "From KV Require Import Corr.PIPE.\nFrom KV Require Labels Res.Replica Res.Image Res.Selector.\nFrom KV Require Import Corr.SchemaTable.\nFrom KV Require Gen.LegacyOrder.\n" +
 			"Open Scope string_scope.\n",
 		caseType:   "casePIPE",
 		mismatchFn: "mismatchesPIPE",
@@ -180,7 +180,52 @@ type frameResult struct {
 }
 
 // normalize removes the targeted locations from a document.
-func normalize02(doc obj, t *GenTree, gr *GenRes) {
+func hasVarSyntax02(files map[string]string) bool {
+	for _, text := range files {
+		if strings.Contains(text, "$$") || strings.Contains(text, "$(") {
+			return true
+		}
+	}
+	return false
+}
+
+// customFS is a field spec added through a `configurations:` file of the tree.
+type customFS struct{ Path, Kind string }
+
+// customSpecs02 collects every field spec of every kconfig.yaml of the case. The frame oracle over-approximates:
+// a location under a custom spec whose kind admits the resource counts as targeted for the whole tree (whatever
+// layer declared it, whatever directive it belongs to). The point of generating `configurations:` here is the
+// trees WITHOUT one that follow in the same process: nothing custom is targeted there (state shared between
+// kustomizations / builds, seeded C02-f).
+func customSpecs02(files map[string]string) []customFS {
+	var out []customFS
+	names := make([]string, 0, len(files))
+	for n := range files {
+		names = append(names, n)
+	}
+	sort.Strings(names)
+	for _, n := range names {
+		if !strings.HasSuffix(n, "/kconfig.yaml") {
+			continue
+		}
+		var m map[string][]map[string]interface{}
+		if err := syaml.Unmarshal([]byte(files[n]), &m); err != nil {
+			continue
+		}
+		for _, l := range m {
+			for _, e := range l {
+				p, _ := e["path"].(string)
+				k, _ := e["kind"].(string)
+				if p != "" {
+					out = append(out, customFS{Path: p, Kind: k})
+				}
+			}
+		}
+	}
+	return out
+}
+
+func normalize02(doc obj, t *GenTree, gr *GenRes, custom []customFS) {
 	ref := loadRef()
 	chain := t.chain(gr.Layer)
 	origName := gr.Obj["metadata"].(obj)["name"].(string)
@@ -289,6 +334,11 @@ func normalize02(doc obj, t *GenTree, gr *GenRes) {
 	}
 	if patched {
 		v, _ = deleteAt(v, []string{"metadata", "annotations"}, map[string]bool{"patched": true})
+	}
+	for _, c := range custom {
+		if c.Kind == "" || c.Kind == kind {
+			v, _ = deleteAt(v, splitFsPath(c.Path), nil)
+		}
 	}
 	_ = v
 }
@@ -413,6 +463,7 @@ func treeOfCase(c case02) *GenTree {
 // check02 builds the tree of the case and evaluates the frame and identity laws.
 func check02(c case02) (cls string, viol []frameResult, nontrivial bool) {
 	t := treeOfCase(c)
+	custom := customSpecs02(c.Files)
 	out, cls, _ := buildFS(fsFromFileMap(c.Files), c.Top, false)
 	if cls != ClsOk {
 		return cls, nil, false
@@ -449,8 +500,8 @@ func check02(c case02) (cls string, viol []frameResult, nontrivial bool) {
 		if !reflect.DeepEqual(in, o) {
 			nontrivial = true
 		}
-		normalize02(in, t, gr)
-		normalize02(o, t, gr)
+		normalize02(in, t, gr, custom)
+		normalize02(o, t, gr, custom)
 		if d := diffPath(in, o, ""); d != "" {
 			viol = append(viol, frameResult{"frame", fmt.Sprintf("resource %s (%v %v) differs at untargeted path %s", gr.Tracer, gr.Obj["kind"], gr.Obj["metadata"].(obj)["name"], d)})
 		}
@@ -475,8 +526,21 @@ func runC02(r *Run, rng *Rng, tier string) error {
 				dirs = append(dirs, d)
 			}
 		}
+		if g.Chance(25) {
+			// custom transformer configuration in some trees; the trees without one that follow must not see it
+			dirs = append(dirs, "configurations")
+		}
+		if g.Chance(25) {
+			// a declared (never referenced) variable: the expander visits every varReference path
+			dirs = append(dirs, "vars")
+		}
 		t := genTree(g, treeOpts{MaxLayers: 3, Directives: dirs, ResPerLayer: 4})
 		c := mkCase02(t)
+		if hasDir(treeOpts{Directives: dirs}, "vars") && hasVarSyntax02(c.Files) {
+			// `$$` (escape) and `$(` (reference) are variable syntax: the expander may rewrite them; out of domain
+			r.Count("skipped", "vars-syntax-in-input")
+			continue
+		}
 		cls, viol, nontriv := check02(c)
 		r.Count("class", cls)
 		r.Count("layers", fmt.Sprint(len(t.Layers)))
